@@ -104,7 +104,7 @@ loading phase), when nodes still have no forks at all. -/
 theorem done_stable {g : List NodeInfo} {s : State} {e : Ev} {p : Nat} (hr : Reach g s)
     (hen : enabled s e = true) (hc : s.phase = .loading → s.inc = 0 → ∀ f, e ≠ .fork p f)
     (hd : nodeDone s p = true) : nodeDone (apply s e) p = true :=
-  Martian.Sched.done_stable (reach_objsInv hr) hen hc hd
+  Martian.Sched.done_stable (reach_objsInv hr) (reach_full hr) hen hc hd
 
 /-! ### non-vacuity -/
 
